@@ -157,7 +157,9 @@ static void vf_interfere(void) {
      * schedules is not run while the I/O thread is inside one of these functions */
     if (G.cb_state == CB_CONSTRUCTED && G.cancel_adds == 0 && VF_nondet_bool()) { env_cancel(); }
   } else {
-    /* the I/O side: may take its election step (once); never re-registers the descriptor; its queue item comes and goes */
+    /* the I/O side: may take its election step (once); never re-registers the descriptor; its queue item comes and goes.
+     * When the callback runs inline on the I/O thread (stop already requested at construction) the I/O side is the caller itself */
+    if (G.on_io_thread) { return; }
     if (G.io_adds == 0 && VF_nondet_bool()) { uint32_t o = S.state_; S.state_ = o + IO_FLAG; G.i_old = o; G.io_adds++; }
     if (IO_WON && VF_nondet_bool()) { G.registered = 0; }
     S.completion_base_.enqueued_ = VF_nondet_bool() ? 1 : 0;
@@ -392,7 +394,7 @@ __CPROVER_assigns(S, G.c_old, G.cancel_adds, G.i_old, G.io_adds, G.registered, G
 __CPROVER_ensures(G.cancel_adds == 1 && G.io_adds <= 1)
 __CPROVER_ensures(CANCEL_WON ==> (!G.registered && G.dels == __CPROVER_old(G.dels) + 1 && G.sched_remote == 1 && G.sched_item == &S.done_op_ && G.sched_fn == DONE_FN))
 __CPROVER_ensures(!CANCEL_WON ==> (G.dels == __CPROVER_old(G.dels) && G.sched_remote == 0 && !G.dead))
-__CPROVER_ensures(G.on_io_thread ==> !G.dead)
+__CPROVER_ensures(G.on_io_thread ==> (!G.dead && G.io_adds == __CPROVER_old(G.io_adds) && G.i_old == __CPROVER_old(G.i_old) && S.completion_base_.enqueued_ == __CPROVER_old(S.completion_base_.enqueued_))) /* inline on the I/O thread: nobody else acts for the I/O side */
 __CPROVER_ensures(G.dead ==> OP_UNTOUCHED) /* once the done item is scheduled from another thread the operation may be gone */
 __CPROVER_ensures(!G.dead ==> (STATE_OK && S.completion_base_.execute_ == __CPROVER_old(S.completion_base_.execute_) && S.completion_base_.next_ == __CPROVER_old(S.completion_base_.next_) && S.context_ == __CPROVER_old(S.context_) && S.fd_ == __CPROVER_old(S.fd_) && (!CANCEL_WON ==> S.done_op_.enqueued_ == 0)))
 /*@BODY RD_request_stop*/
@@ -403,7 +405,7 @@ __CPROVER_assigns(S, G.c_old, G.cancel_adds, G.i_old, G.io_adds, G.registered, G
 __CPROVER_ensures(G.cancel_adds == 1 && G.io_adds <= 1)
 __CPROVER_ensures(CANCEL_WON ==> (!G.registered && G.dels == __CPROVER_old(G.dels) + 1 && G.sched_remote == 1 && G.sched_item == &S.done_op_ && G.sched_fn == DONE_FN))
 __CPROVER_ensures(!CANCEL_WON ==> (G.dels == __CPROVER_old(G.dels) && G.sched_remote == 0 && !G.dead))
-__CPROVER_ensures(G.on_io_thread ==> !G.dead)
+__CPROVER_ensures(G.on_io_thread ==> (!G.dead && G.io_adds == __CPROVER_old(G.io_adds) && G.i_old == __CPROVER_old(G.i_old) && S.completion_base_.enqueued_ == __CPROVER_old(S.completion_base_.enqueued_))) /* inline on the I/O thread: nobody else acts for the I/O side */
 __CPROVER_ensures(G.dead ==> OP_UNTOUCHED) /* once the done item is scheduled from another thread the operation may be gone */
 __CPROVER_ensures(!G.dead ==> (STATE_OK && S.completion_base_.execute_ == __CPROVER_old(S.completion_base_.execute_) && S.completion_base_.next_ == __CPROVER_old(S.completion_base_.next_) && S.context_ == __CPROVER_old(S.context_) && S.fd_ == __CPROVER_old(S.fd_) && (!CANCEL_WON ==> S.done_op_.enqueued_ == 0)))
 /*@BODY WR_request_stop*/
@@ -520,7 +522,7 @@ void lemma_io_election(void) {
   VF_P((io_runs && cancel_runs) ==> (IO_WON != CANCEL_WON), "lemma: when both sides take their step exactly one of them wins (exactly one completion path)");
   VF_P((io_runs && !cancel_runs) ==> (IO_WON && !CANCEL_WON), "lemma: without a stop request the I/O side wins");
   VF_P((!io_runs && cancel_runs) ==> (CANCEL_WON && !IO_WON), "lemma: a stop request that precedes the I/O step wins");
-  VF_P((io_runs && cancel_runs) ==> (IO_WON == io_first), "lemma: the winner is the side whose fetch_add came first");
+  VF_P((io_runs && cancel_runs) ==> (IO_WON ? io_first : !io_first), "lemma: the winner is the side whose fetch_add came first");
 }
 /* the environment step used as the rely of the I/O-side functions is a behaviour of request_stop's contract */
 void lemma_io_env_cancel(void) {
@@ -536,9 +538,9 @@ void lemma_io_env_cancel(void) {
 /* NO_STALE_REG is inductive: every step any party can take (as allowed by the contracts / stub obligations above) keeps it */
 void lemma_io_no_stale_registration(void) {
   G.fam = VF_nondet_bool() ? FAM_RD : FAM_WR;
-  G.io_adds = VF_nondet_bool(); G.cancel_adds = VF_nondet_bool(); G.i_old = VF_nondet_u32(); G.c_old = VF_nondet_u32();
+  G.io_adds = VF_nondet_bool() ? 1 : 0; G.cancel_adds = VF_nondet_bool() ? 1 : 0; G.i_old = VF_nondet_u32(); G.c_old = VF_nondet_u32();
   S.state_ = VF_nondet_u32(); G.registered = VF_nondet_bool(); G.cb_state = VF_nondet_int();
-  G.sched_remote = VF_nondet_bool(); G.sched_item = VF_nondet_bool() ? &S.done_op_ : NULL; G.sched_fn = VF_nondet_bool() ? DONE_FN : NULL;
+  G.sched_remote = VF_nondet_bool() ? 1 : 0; G.sched_item = VF_nondet_bool() ? &S.done_op_ : NULL; G.sched_fn = VF_nondet_bool() ? DONE_FN : NULL;
   __CPROVER_assume(STATE_OK && NO_STALE_REG && (G.cancel_adds == 0 ==> G.sched_remote == 0) && (G.cb_state == CB_NONE || G.cb_state == CB_CONSTRUCTED || G.cb_state == CB_DESTRUCTED));
   __CPROVER_assume(G.cancel_adds == 1 ==> G.cb_state != CB_NONE);     /* request_stop is reached only through the constructed callback */
   int step = VF_nondet_int();
